@@ -7,6 +7,7 @@ import copy
 import json
 
 from harness.lib.framework import Prop, coq_bool, coq_list, coq_N, coq_nat, coq_str, coq_Z
+from harness.lib.looputil import permute_ready
 
 TABLES = ("deployment", "filter", "port", "step", "target", "token", "workflow", "execution")
 TCOQ = {"deployment": "TDeployment", "filter": "TFilter", "port": "TPort", "step": "TStep", "target": "TTarget",
@@ -585,10 +586,7 @@ class C09(Prop):
         class PermutingLoop(asyncio.SelectorEventLoop):
             def _run_once(self):
                 if len(self._ready) > 1:
-                    items = list(self._ready)
-                    rng.shuffle(items)
-                    self._ready.clear()
-                    self._ready.extend(items)
+                    permute_ready(self._ready, rng.shuffle)   # thread-safe, same order (harness/lib/looputil.py)
                 super()._run_once()
 
         return PermutingLoop()
